@@ -413,3 +413,9 @@ mod tests {
         }
     }
 }
+
+#[cfg(kani)]
+#[allow(warnings, clippy::all, clippy::pedantic)]
+pub(crate) mod verif_kani {
+    include!(concat!(env!("IPA_VERIF_DIR"), "/harness/distributions.rs"));
+}
